@@ -29,6 +29,7 @@ def dispatch (line : String) : String :=
   | "execw" :: rest => handleExecW rest
   | "elidetie" :: rest => handleElideTie rest
   | "replace" :: rest => handleReplace rest
+  | "rentie" :: rest => handleRenTie rest
   | "execeq" :: rest => handleExecEq rest
   | _ => "bad-request"
 
